@@ -29,10 +29,10 @@ EXPLANATION = (
 
 TECHNIQUE = "static analysis: reader-shape extraction by abstract interpretation on probe tables, exhaustive lint of the embedded tables, value graphs per atom kind"
 
-ISO_PROBE = ("1-H-1,1.5(1),x,10.5(2)\n1-H-2,2.25(10)#,x,10.5(2)\n26-Fe-54,54.5,x,55.5(3)\n"
+ISO_PROBE = ("1-H-1,1.5(1),x,10.5(2)\n1-H-2,2.25(10)#,x,10.5(2)\n2-He-3,3.5(1),x,4.5(1)\n2-He-4,4.25(1),x,4.5(1)\n26-Fe-54,54.5,x,55.5(3)\n"
              "26-Fe-56,[56.5],,55.5(3)\n92-U-235,235.125(25),x,238.5(1)\n92-U-238,238.25(1.5),x,238.5(1)")
-EL_PROBE = "1\tH\thydrogen\t  [1.25,1.75]\tm\n26\tFe\tiron\t 55.75(5)  [55.1,55.9] g r\n92 U uranium -"
-AB_PROBE = ("1\tH\thydrogen\n    1\t[0.7,0.8]\tm\n    2\t0.25(1)\n26\tFe\tiron\n    54\t0.06(1)\n    56\t0.9(2)\n"
+EL_PROBE = "1\tH\thydrogen\t  [1.25,1.75]\tm\n2 He helium 4.5(2)\n26\tFe\tiron\t 55.75(5)  [55.1,55.9] g r\n92 U uranium -"
+AB_PROBE = ("1\tH\thydrogen\n    1\t[0.7,0.8]\tm\n    2\t0.25(1)\n2 He helium\n    3 0.125\n    4 0.875\n26\tFe\tiron\n    54\t0.06(1)\n    56\t0.9(2)\n"
             "92 U uranium\n    235 0.25\n    238 0.5(1)")
 
 
@@ -88,6 +88,7 @@ def _reader_mass(ctx):
         ctx.check(close(fr(rec.get("_mass_unc")), u), "R1", f"isotope mass uncertainty of {sym}-{A} ('{cell}')",
                   f"_mass_unc = {rec.get('_mass_unc')}, cell reads {float(u)}", site)
     for sym, cell, src in (("H", "[1.25,1.75]", "element table (interval)"), ("Fe", "55.75(5)", "element table (abridged value)"),
+                           ("He", "4.5(2)", "element table (same value as the isotope table's fourth column, its own uncertainty)"),
                            ("U", "238.5(1)", "isotope table column 4, element table has '-'")):
         v, u = R(cell)
         ctx.check(close(fr(el(sym).get("_mass")), v), "R1", f"atomic weight of {sym} comes from the {src}",
@@ -201,6 +202,13 @@ def _lint(ctx, F):
     ctx.check(not bad, "R3", "Z and symbol of every isotope_mass row agree with element_base", f"{bad[:5]}", site)
     bad = [(r[0], c) for r in iso_rows for c in (r[1], r[3]) if notation.lexical_class(c) in (None, "empty") and c != ""]
     ctx.check(not bad, "R3", "every mass cell of isotope_mass is in a documented notation", f"{bad[:5]}", site)
+    col4 = {}
+    for r in iso_rows:
+        if len(r) == 4:
+            col4.setdefault(r[0].split("-")[1], set()).add(r[3])
+    badc = {k_: sorted(v_) for k_, v_ in col4.items() if len(v_) > 1}
+    ctx.check(not badc, "R3", "the atomic-weight cell (fourth column) is the same on every isotope row of an element",
+              f"{list(badc.items())[:3]}: the reader keeps whichever row comes last", site, sample={"elements": len(col4)})
     keys = [r[0] for r in iso_rows]
     ctx.check(len(keys) == len(set(keys)), "R3", "no nuclide is listed twice in isotope_mass", "duplicates", site)
     bad = [r[:4] for r in el_rows if len(r) < 4 or sym_of.get(int(r[0])) != r[1] or (r[3] != "-" and notation.lexical_class(r[3]) in (None, "empty"))]
@@ -259,7 +267,7 @@ def _lint(ctx, F):
            and isinstance(v[0], (int, float)) and isinstance(v[1], str)))]
     ctx.check(not bad, "R3", "every density entry is a number, (number, caveat) or None", f"{bad}", "periodictable/density.py",
               sample={"unknown densities": sum(1 for v in dens.values() if v is None)})
-    ctx.floor("R3", 12)
+    ctx.floor("R3", 13)
 
 
 def _density_graphs(ctx):
@@ -277,6 +285,12 @@ def _density_graphs(ctx):
     eq(ctx, "R5", "n * d^3 = 1e24", n * d ** 3, sp.Integer(10) ** 24, fsite(ctx, "density.interatomic_distance"))
     eq(ctx, "R5", "an isotope has the number density of its element (same inter-atomic spacing)",
        I.call(I.global_name("density", "number_density"), [A["isotope"]], {}), rho * NA / mFe, fsite(ctx, "density.number_density"))
+    for kind in ("isotope", "DT"):
+        ni, di = I.getattr(A[kind], "number_density"), I.getattr(A[kind], "interatomic_distance")
+        if ni is None or di is None:
+            ctx.fail("R5", f"n * d^3 = 1e24 for an isotope [{kind}]", f"number_density {ni}, interatomic_distance {di}", fsite(ctx, "density.interatomic_distance"))
+        else:
+            eq(ctx, "R5", f"n * d^3 = 1e24 for an isotope [{kind}]", ni * di ** 3, sp.Integer(10) ** 24, fsite(ctx, "density.interatomic_distance"))
     # the documented customisation: after the table data change, the derived quantities follow
     Co = w.element("Co")
     w.set(Co, _density=sp.Symbol("rho_a", positive=True), _mass=sp.Symbol("m_a", positive=True))
